@@ -11,6 +11,7 @@ CONSTANTS
   NViews = 2
   PokeTTLs = {1}
   MaxOps = 1000
+  Faults = FALSE
   Full = FALSE
   DetOnly = FALSE
 INIT Init
